@@ -30,11 +30,14 @@ SEC == <<194, 167>>          \* UTF-8 of the section sign used by the legacy Min
 -----------------------------------------------------------------------------
 (* Quake 1 / 2 / 3 status reply *)
 QHeader(v) == CASE v = 1 -> "n" [] v = 2 -> "print\n" [] v = 3 -> "statusResponse\n"
-QuakeShapes == [ver : {1, 2, 3}, alt : BOOLEAN, version : {"none", "version", "*version"}, extras : {0, 2},
+\* alt: which spelling of the named variables the server uses: "no" primary, "yes" alternate, "both" (then the primary one names
+\* the field - as in the reference implementation - and the alternate one is an ordinary unused variable)
+QuakeShapes == [ver : {1, 2, 3}, alt : {"no", "yes", "both"}, version : {"none", "version", "*version"}, extras : {0, 2},
                 players : Counts, addr : BOOLEAN, spaces : BOOLEAN]
 QuakeOk(s) == (s.ver = 1 => ~s.addr) /\ (s.spaces => s.players > 0)
 QuakeKnown == <<"hostname", "sv_hostname", "mapname", "map", "maxclients", "sv_maxclients", "version", "*version">>
-QKV(key, f, ty) == <<Txt("\\" \o key \o "\\"), Fx(f, ty, "\\\n")>>
+\* (Quake strings end at a line feed, not at a NUL: a NUL may occur inside a value - `nulok`)
+QKV(key, f, ty) == <<Txt("\\" \o key \o "\\"), [k |-> "f", f |-> f, ty |-> ty, excl |-> "\\\n", nulok |-> TRUE]>>
 QPlayer(s, i) ==
   LET x == X(i)
       nameExcl == IF s.spaces THEN "\"\n" ELSE "\" \n"
@@ -54,10 +57,11 @@ QPlayerExpect(s, i) ==
          IF s.addr THEN E(p("address"), "paddr" \o x) ELSE En(p("address"))>>
 Quake(s) ==
   [items |-> <<Lit(<<255, 255, 255, 255>>), Txt(QHeader(s.ver))>>
-             \o QKV(IF s.alt THEN "sv_hostname" ELSE "hostname", "host", "text")
-             \o QKV(IF s.alt THEN "map" ELSE "mapname", "map", "text")
+             \o QKV(IF s.alt = "yes" THEN "sv_hostname" ELSE "hostname", "host", "text")
+             \o If(s.alt = "both", QKV("sv_hostname", "host2", "text") \o QKV("map", "map2", "text") \o QKV("sv_maxclients", "max2", "dec_u8"))
+             \o QKV(IF s.alt = "yes" THEN "map" ELSE "mapname", "map", "text")
              \o Cat([i \in 1 .. s.extras |-> <<Txt("\\"), Fkey("xk" \o X(i), "\\\n", "keys", QuakeKnown), Txt("\\"), Fx("xv" \o X(i), "text", "\\\n")>>])
-             \o QKV(IF s.alt THEN "sv_maxclients" ELSE "maxclients", "max", "dec_u8")
+             \o QKV(IF s.alt = "yes" THEN "sv_maxclients" ELSE "maxclients", "max", "dec_u8")
              \o If(s.version # "none", QKV(s.version, "version", "text"))
              \o <<Txt("\n")>>
              \o Cat([i \in 1 .. s.players |-> QPlayer(s, i)]),
@@ -66,6 +70,8 @@ Quake(s) ==
                 IF s.version = "none" THEN En(<<"game_version">>) ELSE E(<<"game_version">>, "version"),
                 El(<<"players">>), Eo(<<"unused_entries">>)>>
               \o [i \in 1 .. s.extras |-> Ek(<<"unused_entries">>, "xk" \o X(i), "xv" \o X(i))]
+              \o If(s.alt = "both", <<E(<<"unused_entries", "sv_hostname">>, "host2"), E(<<"unused_entries", "map">>, "map2"),
+                                      Et(<<"unused_entries", "sv_maxclients">>, "max2", "str")>>)
               \o Cat([i \in 1 .. s.players |-> QPlayerExpect(s, i)]),
    entry |-> "quake" \o X(s.ver)]
 
